@@ -384,7 +384,12 @@ fn c08_case(ctx: &Ctx, rep: &mut Report, rng: &mut Rng, version: Version, bufsiz
     }
     let mut sess = match start {
         Some(s) => s,
-        None => Session::create(version, bufsize).map_err(|e| ("create | ok | err".to_string(), format!("{e}")))?,
+        None => {
+            // (creating over a store that still holds an older document is not done here: the
+            // crate documents "the writer should be initially empty", and it does fail there)
+            let old: Vec<u8> = Vec::new();
+            Session::create_over(version, bufsize, old).map_err(|e| ("create | ok | err".to_string(), format!("{e}")))?
+        }
     };
     let mut former: Vec<(String, Vec<u8>)> = Vec::new();
     let n_ops = if ctx.quick() { rng.range(10, 60) } else { rng.range(20, 200) };
